@@ -78,6 +78,7 @@ fn main() {
         "hotkey" => apidrv::hotkey(rest),
         "renewstory" => seqdrv::renewstory(rest),
         "ackstory" => seqdrv::ackstory(rest),
+        "pinstory" => seqdrv::pinstory(rest),
         "damage" => damagedrv::main(rest),
         "clocksat" => seqdrv::clocksat(rest),
         "faultstory" => seqdrv::faultstory(rest),
